@@ -8,6 +8,14 @@ ALL = ["C%02d" % i for i in range(1, 21)]
 
 # id -> (category, text, level_note, technique, engine, design_ref)
 CHECKS = {
+    "C01": ("exploration",
+            "Reference-model monitor: ~3k (quick) / ~100k (thorough) seeded, type-directed, well-typed programs are analysed by the real analyzer, compiled and run on the VM with an effect-logging host; effects, outcome class/kind/message are compared with an independent reference evaluator of the source-level semantics, plus the residue invariant (operand stack, frames, memory pointer, handlers all zero at exit) observed through the core-exit hook. Held on the executions produced; constructs poisoned by open findings are only exercised by tagged cases.",
+            "Trusts the reference evaluator harness/prog/eval.go as the reading of the semantics listed in C01; float text rendering is mirrored, not specified.",
+            "runtime monitoring: generated programs vs executable reference model + residue invariant hook", "prog-gen+model", "DESIGN.md §3 C01"),
+    "C04": ("translation_validation",
+            "Differential monitor: the C01 program stream (shared fragment) and the shipped tests/examples are run by the tree-walking interpreter and by compiler+VM with identical hosts; outputs and outcome class/kind/message are compared pairwise, interpreter non-termination is decided by a step budget derived from the reference model. Known interpreter divergences are pinned as findings with narrow signatures and hazard tags computed by static analysis of the generated program.",
+            "The fragment boundary (spawn, triggers, templates, `->`) is excluded by design; comparison is of host-visible text and outcome only.",
+            "runtime monitoring: differential execution of two backends over generated programs", "prog-gen+model", "DESIGN.md §3 C04"),
     "C05": ("exploration",
             "Runtime monitor over ~80k (quick) / ~530k (thorough) hostile inputs (random bytes, token soup, every prefix and single-token edit of the shipped programs, nesting towers to depth 1000, semantic oddities, single-character edits), each fed to the real Analyze as entry module and as imported module text in crash-isolated workers; a Go panic, fatal error or lexer-call budget overrun (hook-decided, not time) refutes totality. Sampling, not proof: held on the executions produced.",
             "Trusts the lexer hook's call counting and the 2*|runes|+16 budget (calibrated: max observed far below); loops that neither lex nor recurse only hit the watchdog (inconclusive).",
@@ -31,6 +39,7 @@ def main():
         },
         "engines": [
             {"name": "fw", "path": "harness/fw", "serves_properties": sorted(CHECKS), "kind_free_text": "supervisor + crash-isolated worker pool, journalling, known-finding classification, evidence writer, race-log parser"},
+            {"name": "prog", "path": "harness/prog", "serves_properties": [p for p in sorted(CHECKS) if p in ("C01", "C02", "C04", "C09", "C11", "C14", "C19", "C20")], "kind_free_text": "typed program IR, printer, seeded type-directed generator, reference evaluator, static hazard tagging"},
             {"name": "drive", "path": "harness/drive", "serves_properties": sorted(CHECKS), "kind_free_text": "in-memory hosts with effect logs, VM/interpreter drivers, residue/step/lexer-budget monitors on the verif hooks"},
         ],
         "checks": [],
